@@ -453,6 +453,13 @@ def run(ck: Check):
     from . import c03_script
 
     c03_script.run(ck, rng, validate)
+    # ---- 4. failure isolation of the DOE loop over DISCIPLINES (Retry.tla): a sample whose evaluation
+    # raises ValueError below the top-level discipline must cost that sample only ("a DOE evaluates each
+    # distinct generated sample once and records them"); the other clauses of that module are growth.
+    from ..core import Promote
+    from ..growth import g04_retry
+
+    g04_retry.run(Promote(ck, {"G04.doe.failure-isolation": ("DoeFailureIsolation", {"what": "doe_inner_discipline_failure"})}))
     ck.exhaustive = False
 
 
